@@ -301,6 +301,34 @@ func (c wcase) waitLimitOf() time.Duration {
 	return waitLimit + time.Duration(c.n())*2*time.Millisecond
 }
 
+// patientAfter is time.After measured in slices of 100 ms, each started when the
+// previous one has ended.  The whole machine is sometimes paused for seconds
+// (observed: six independent harness processes stalled at the same instant, all
+// their pending timers fired together afterwards, with the goroutines doing the
+// work still runnable): with one long timer such a pause ends the wait although
+// the run had no chance to progress; with slices it costs one slice.  Never
+// shorter than time.After(d).
+func patientAfter(d time.Duration) (<-chan time.Time, func()) {
+	ch := make(chan time.Time)
+	stop := make(chan struct{})
+	go func() {
+		const slice = 100 * time.Millisecond
+		tm := time.NewTimer(slice)
+		defer tm.Stop()
+		for left := d; left > 0; left -= slice {
+			tm.Reset(min(slice, left))
+			select {
+			case <-tm.C:
+			case <-stop:
+				return
+			}
+		}
+		close(ch)
+	}()
+	var once sync.Once
+	return ch, func() { once.Do(func() { close(stop) }) }
+}
+
 // poisoned is set when a run left a pipe registered for ever: the global pipe
 // counter of obiiter can then not signal completion to later runs of the same
 // process.
@@ -343,7 +371,8 @@ func runCase(c wcase) observation {
 	var obs observation
 	fatalsBefore := fatal.Count()
 	out := newSink()
-	deadline := time.After(c.waitLimitOf())
+	deadline, stopDeadline := patientAfter(c.waitLimitOf())
+	defer stopDeadline()
 
 	if c.JitterMaxUs > 0 {
 		obiiter.VerifSetJitter(c.JitterSeed, c.JitterMaxUs)
